@@ -19,6 +19,21 @@ def run(ctx):
     res.add_tlc(r)
     r = ctx.tlc("MC_Feed", "MC_Feed.cfg", consts={"MaxItems": 7 if q else 10, "MaxChunk": 2}).require_clean()
     res.add_tlc(r)
+    # 1b. (thorough) the history invariants as an inductive invariant, discharged by Apalache: no bound on the
+    #     number of operations (sequences up to the generator bound 8); recorded, nothing depends on it
+    if not q:
+        import shutil, subprocess
+        if shutil.which("apalache-mc"):
+            d = ctx.spec_dir("apalache")
+            ok = []
+            for args in (["--init=Init", "--inv=IndInv", "--length=0"], ["--init=IndInit", "--inv=IndInv", "--length=1"]):
+                try:
+                    p = subprocess.run(["timeout", "300", "apalache-mc", "check"] + args + ["APA_History.tla"], cwd=d,
+                                       stdout=subprocess.PIPE, stderr=subprocess.STDOUT, timeout=330)
+                    ok.append("EXITCODE: OK" in p.stdout.decode("utf-8", "replace"))
+                except Exception:
+                    ok.append(False)
+            res.extra["apalache_inductive_invariant_history"] = {"initiation": ok[0], "consecution": ok[1]}
     # 2. generation: all operation sequences of the given depth
     gh = ctx.tlc("MC_History", "Gen_History.cfg", consts={"GenDepth": 6 if q else 9})
     hs = gh.json_lines("GEN")
